@@ -437,7 +437,7 @@ LY_ERR
 lys_compile_expr_implement(const struct ly_ctx *ctx, const struct lyxp_expr *expr, LY_VALUE_FORMAT format,
         void *prefix_data, ly_bool implement, struct lys_glob_unres *unres, const struct lys_module **mod_p)
 {
-    uint32_t i;
+    uint32_t i, prev_count;
     const char *ptr, *start, **imp_f, *all_f[] = {"*", NULL};
     const struct lys_module *mod;
 
@@ -474,7 +474,13 @@ lys_compile_expr_implement(const struct ly_ctx *ctx, const struct lyxp_expr *exp
         if (!mod->implemented) {
             /* implement if not implemented */
             imp_f = (ctx->flags & LY_CTX_ENABLE_IMP_FEATURES) ? all_f : NULL;
+            prev_count = unres->implementing.count;
             LY_CHECK_RET(lys_implement((struct lys_module *)mod, imp_f, unres));
+            if (unres->implementing.count > prev_count + 1) {
+                /* targets of the augments and deviations of the module were implemented as well and must be
+                 * compiled, too, recompile the whole dep set */
+                return LY_ERECOMPILE;
+            }
         }
         if (!mod->compiled) {
             /* compile if not implemented before or only marked for compilation */
